@@ -286,4 +286,116 @@ def mon_C10(run):
     return bad[:1]
 
 
-MONITORS = {"C10": mon_C10, "C01": mon_C01, "C02": mon_C02, "C11": mon_C11}
+def is_sublist(a, b):
+    it = iter(b)
+    return all(x in it for x in a)
+
+
+def object_history_violations(run):
+    """every object: detached at most once, destroyed at most once, never seen again
+    (handed out, idle, in a callback) after it was detached / destroyed / taken"""
+    gone = {}
+    detached = {}
+    bad = []
+    for row in run.rows:
+        if row is None:
+            continue
+        k = row["k"]
+        for e in row["ev"]:
+            name, args = ev_args(e)
+            if name == "detach":
+                oid = args[1]
+                if oid in detached:
+                    bad.append((k, f"object {oid} detached twice (steps {detached[oid]} and {k})"))
+                detached[oid] = k
+            elif name == "destroy":
+                oid = args[0]
+                if oid in gone:
+                    bad.append((k, f"object {oid} destroyed twice"))
+                gone[oid] = k
+            elif name == "taken":
+                gone[args[1]] = k
+            elif name in ("handout", "recycle", "pre_recycle", "post_recycle", "post_create", "pred"):
+                oid = args[-1].split(":")[0] if name == "handout" else args[2].split(":")[0]
+                if name == "pred":
+                    oid = args[2].split(":")[0]
+                if oid in gone or oid in detached:
+                    bad.append((k, f"object {oid} used by {name} after the pool had let go of it"))
+        if row["idle"] is not None:
+            for x in row["idle"]:
+                if x.split(":")[0] in gone:
+                    bad.append((k, f"object {x} is idle after it was destroyed / taken"))
+        if bad:
+            return bad
+    return bad
+
+
+def mon_C03(run):
+    """abandoned get(): (1) solo differential on the implementation: a get that ran alone
+    and ended without an object leaves permits/closed/users/out/woken as they were, idle a
+    sub-list, size reduced by the idle objects discarded, every discarded or created object
+    destroyed; (2) object histories: detached exactly once, never seen again"""
+    bad = object_history_violations(run)
+    if bad:
+        return bad[:1]
+    rows = run.rows
+    n = len(rows)
+    k = 0
+    while k < n:
+        row = rows[k]
+        if row is None or not row["action"].startswith("start get") or k == 0 or rows[k - 1] is None:
+            k += 1
+            continue
+        i = row["op"]
+        before = rows[k - 1]["obs"]
+        if before["size"] == "?":
+            k += 1
+            continue
+        j = k + 1
+        solo = True
+        while j < n and rows[j] is not None:
+            a = rows[j]["action"].split()
+            if a[0] != "step" or int(a[1]) != i:
+                solo = False
+                break
+            if rows[j]["obs"]["lbl"] == "done":
+                break
+            j += 1
+        if not solo or j >= n or rows[j] is None or rows[j]["obs"]["lbl"] != "done":
+            k += 1
+            continue
+        after = rows[j]["obs"]
+        res = [ev_args(e)[1][1] for e in rows[j]["ev"] if e.startswith("result(")]
+        if res and res[0].startswith("ok"):
+            k = j + 1
+            continue
+        steps = " ".join(rows[x]["action"].split()[2] for x in range(k + 1, j + 1))
+        what = f"get #{i} ran alone ({steps}) and ended with {res[0] if res else '?'}"
+        for c in ("permits", "closed", "users", "out", "woken", "max"):
+            if before[c] != after[c]:
+                bad.append((rows[j]["k"], f"{what}: {c} was {before[c]} before the call and is {after[c]} after it"))
+        ib, ia = parse_list(before["idle"]), parse_list(after["idle"])
+        if not is_sublist(ia, ib):
+            bad.append((rows[j]["k"], f"{what}: idle queue {ia} is not a sub-list of {ib}"))
+        if int(before["size"]) - int(after["size"]) != len(ib) - len(ia):
+            bad.append((rows[j]["k"], f"{what}: size went {before['size']} -> {after['size']} but {len(ib) - len(ia)} idle objects were discarded"))
+        lb, la = set(parse_list(before["live"])), set(parse_list(after["live"]))
+        discarded = {x.split(":")[0] for x in ib} - {x.split(":")[0] for x in ia}
+        if la != lb - discarded:
+            bad.append((rows[j]["k"], f"{what}: live objects {sorted(la)} != before {sorted(lb)} minus discarded {sorted(discarded)}"))
+        det = {}
+        for x in range(k, j + 1):
+            for e in rows[x]["ev"]:
+                nm, ar = ev_args(e)
+                if nm == "detach":
+                    det[ar[1]] = det.get(ar[1], 0) + 1
+        for oid in discarded:
+            if det.get(oid, 0) != 1:
+                bad.append((rows[j]["k"], f"{what}: discarded idle object {oid} was detached {det.get(oid, 0)} times"))
+        if bad:
+            return bad[:1]
+        k = j + 1
+    return bad[:1]
+
+
+MONITORS = {"C03": mon_C03, "C10": mon_C10, "C01": mon_C01, "C02": mon_C02, "C11": mon_C11}
